@@ -160,6 +160,9 @@ PROPS["C01"] = _pprop("ScpiVerif.Props.C01", [{"name": "p01", "cfgs": ["A", "B",
 
 PROPS["C04"]["tables"] = ["unit-multipliers"]      # a compiled value that differs from the source text breaks C04's tie
 
+# theorem modules about Lean text GENERATED from C functions: obligations whenever the translator accepts the current source
+PROPS["C10"]["generated"] = [{"module": "ScpiVerif.Props.C10Gen", "section": "fifo_c"}]
+
 NOT_CLAIMED = {}
 
 _T = {
